@@ -97,4 +97,40 @@ def participants (s : St) (ns : Ns) : Target → List (Sid × Eio)
 def recipients (s : St) (ns : Ns) (t : Target) (skip : List Sid) : List (Sid × Eio) :=
   (participants s ns t).filter (fun p => !(skip.contains p.1))
 
+/-- Transport loss (`_handle_eio_disconnect`): in every namespace the session that lives on this
+    transport (`sid_from_eio_sid`) is disconnected, i.e. removed from every room of that
+    namespace.  A `disconnect` in one namespace never changes `sidOf` in another, so the loop over
+    the namespaces is one filter. -/
+def lost (s : St) (eio : Eio) : St :=
+  s.filter (fun e => !(sidOf s e.ns eio == some e.sid))
+
+/-! ### Histories
+
+The operations of property C03 as data.  `connect` carries the session id that
+`eio.generate_id()` returned; that generator never repeats an id (DESIGN §4, trusted base), which
+`apply` renders as: a `connect` whose id is already in use on the namespace does not happen. -/
+
+inductive Op where
+  | connect (ns : Ns) (eio : Eio) (sid : Sid)
+  | enter (ns : Ns) (sid : Sid) (room : Room)
+  | leave (ns : Ns) (sid : Sid) (room : Room)
+  | closeRoom (ns : Ns) (room : Room)
+  | disconnect (ns : Ns) (sid : Sid)
+  | lost (eio : Eio)
+  deriving Repr, DecidableEq
+
+def apply (s : St) : Op → St
+  | .connect ns eio sid =>
+    if (eioOf s ns sid).isSome then s else (connect s ns eio sid).getD s
+  | .enter ns sid room =>
+    match enter s ns sid room with
+    | .ok s' => s'
+    | .error _ => s
+  | .leave ns sid room => leave s ns sid (some room)
+  | .closeRoom ns room => closeRoom s ns room
+  | .disconnect ns sid => disconnect s ns sid
+  | .lost eio => lost s eio
+
+def run (s : St) (ops : List Op) : St := ops.foldl apply s
+
 end Sio.Rooms
